@@ -1287,6 +1287,14 @@ private:
 
   bool doAddListener(const ListenerCfg &lc)
   {
+    // Fail closed: a listener requested with TLS must never come up as a
+    // clear-text listener because serverTls is not switched on (enabled=false,
+    // defaultMode left at None) - onListener would silently skip the handshake.
+    if (lc.tls != TlsMode::None && !(lc.tls == TlsMode::Server && _config.serverTls.enabled && _sslSrv))
+    {
+      err(TransportError::Config, "TLS listener requested but server TLS is not configured");
+      return false;
+    }
     int sfd = -1;
     sockaddr_storage ss{};
     socklen_t sl = 0;
@@ -1452,6 +1460,21 @@ private:
 
   bool doConnect(const ConnectReq &cr)
   {
+    // Fail closed: a connection requested with TLS must never be made in clear
+    // text because clientTls is not switched on (enabled=false, defaultMode left
+    // at None) - the session set-up below would silently skip the handshake.
+    if (cr.tls != TlsMode::None && !(cr.tls == TlsMode::Client && _config.clientTls.enabled && _sslCli))
+    {
+      decltype(_cbs.onClose) closeCb;
+      { std::lock_guard<std::mutex> g(_cbMutex); closeCb = _cbs.onClose; }
+      if (closeCb)
+      {
+        closeCb(cr.sid, TransportErrorInfo{TransportError::Config,
+                                            "TLS requested but client TLS is not configured"});
+      }
+      err(TransportError::Config, "TLS connect requested but client TLS is not configured");
+      return false;
+    }
     addrinfo hints{};
     hints.ai_family = AF_UNSPEC;
     hints.ai_socktype = SOCK_STREAM;
